@@ -35,6 +35,16 @@ class Gen:
         self.aliases = []
         self.seen_composites = {}
 
+    def uniq(self, x):
+        """level identifiers are paths joined by '_': schema names containing '_' can collide; disambiguate deterministically"""
+        used = self.__dict__.setdefault("_used", set())
+        y, k = x, 1
+        while y in used:
+            k += 1
+            y = "%s_x%d" % (x, k)
+        used.add(y)
+        return y
+
     # ---- type aliases
     def alias(self, name, expr):
         self.aliases.append("using %s = %s; static_assert(sizeof(%s) > 0, \"complete\");" % (name, expr, name))
@@ -43,8 +53,9 @@ class Gen:
     def collect(self):
         s = self.s
         for m in s.messages:
-            mt = self.alias("M_" + ident(m.name), "::%s::messages::%s<char>" % (self.pkg, m.name))
-            self.level_of(m, mt, ident(m.name), "message")
+            mid = self.uniq(ident(m.name))
+            mt = self.alias("M_" + mid, "::%s::messages::%s<char>" % (self.pkg, m.name))
+            self.level_of(m, mt, mid, "message")
         # public composites not reached through a message (header, dimensions, length encodings and unused ones)
         for tname, node in s.types.items():
             if node.tag.split("}")[-1] == "composite":
@@ -61,10 +72,11 @@ class Gen:
                 ct = self.alias("C_%s_%s" % (idn, ident(n)), "decltype(std::declval<%s>().%s())" % (cpp, n))
                 self.composite_level(e, ct, "%s_%s" % (idn, ident(n)))
         for g in L.groups:
-            gt = self.alias("G_%s_%s" % (idn, ident(g.name)), "decltype(std::declval<%s>().%s())" % (cpp, g.name))
-            et = self.alias("E_%s_%s" % (idn, ident(g.name)), "%s::value_type" % gt)
-            members.append(dict(name=g.name, enc=None, level=g, offset=None, mkind="group", cpp=gt, entry_cpp=et))
-            self.level_of(g, et, "%s_%s" % (idn, ident(g.name)), "entry")
+            gid = self.uniq("%s_%s" % (idn, ident(g.name)))
+            gt = self.alias("G_" + gid, "decltype(std::declval<%s>().%s())" % (cpp, g.name))
+            et = self.alias("E_" + gid, "%s::value_type" % gt)
+            members.append(dict(name=g.name, enc=None, level=g, offset=None, mkind="group", cpp=gt, entry_cpp=et, gid=gid))
+            self.level_of(g, et, gid, "entry")
         for n, e, a in L.data:
             dt = self.alias("D_%s_%s" % (idn, ident(n)), "decltype(std::declval<%s>().%s())" % (cpp, n))
             members.append(dict(name=n, enc=e, offset=None, mkind="data", cpp=dt, attrs=a))
@@ -252,7 +264,7 @@ class Gen:
                 self.fill_roots.append(("message", li.ident, L, None))
             for m in li.members:
                 if m["mkind"] == "group":
-                    gid = "%s_%s" % (li.ident, ident(m["name"]))
+                    gid = m["gid"]
                     o.append("vw r_%s_gfill(const %s& g, %s::size_type n) { return view_of(sbepp::fill_group_header(g, n)); }" % (gid, m["cpp"], m["cpp"]))
                     self.fill_roots.append(("group", gid, m["level"], m["cpp"]))
 
@@ -428,7 +440,18 @@ class Gen:
             # present with the schema's value, absent (all-ones sentinel of sbv::dep_of) otherwise
             return [("dep_of<T>(0)", "u64", int(attrs["deprecated"]) if attrs and "deprecated" in attrs else (1 << 64) - 1)]
 
+        trnames = set()
+
+        def uq(name):
+            base, k = name, 1
+            while name in trnames:
+                k += 1
+                name = "%s_x%d" % (base, k)
+            trnames.add(name)
+            return name
+
         def root(name, traits_expr, items):
+            name = uq(name)
             # items: (member fn, kind, expected) kind in str|u64|i64|f32|f64|char
             fields = []
             o.append("struct TR_%s {" % name)
@@ -492,7 +515,7 @@ class Gen:
                 if not L.data:
                     continue
             tag = "::%s::schema::messages::%s" % (pkg, "::".join(L.path))
-            idn = ident(*L.path)
+            idn = uq("sz_" + ident(*L.path))[3:]
             gl = ([L] if L.kind == "group" else []) + groups_preorder(L)
             has_data = bool(L.data) or any(g.data for g in groups_preorder(L))
             params = []
